@@ -24,7 +24,7 @@ def run(ctx):
             "translator harness/cmd/translate consts (MaxOverdueDuration, DiscardedShootCodeError, DiscardedShootTag compiled from /repo)",
             "extraction: ExtrOcamlBasic only; OCaml driver ocaml/C04/main.ml + ocaml/common/conv.ml",
             "correspondence harness harness/cmd/hC04: real coreutil.Waiter on a mock schedule and real engine with a slow mock gun; "
-            "booleans/inequalities only, planned margins >= 200 ms, runs that leave the planned timeline by > 80 ms are repeated",
+            "booleans/inequalities only, planned margins >= 250 ms; an attempt during which a canary goroutine saw the machine unable to keep time (5 ms sleep overshooting by > 50 ms) is repeated",
             "modelled, not verified: timer accuracy and goroutine wake-up latency (only 'a timer never fires early' and 'the clock is monotone' are used)",
         ],
         assumptions=["Go timers never fire early", "time.Now is monotone (readings never decrease)"],
